@@ -1,3 +1,4 @@
+mod model;
 mod c01;
 mod c02;
 mod c03;
